@@ -32,6 +32,7 @@ func RunNativeDir(harnesses map[string]func()) {
 		tier = replay.Tier
 		reached = nil
 		outcome := runOne(h)
+		CleanupTempDirs()
 		fmt.Printf("VERIF-NATIVE-RESULT file=%s outcome=%s reached=%s\n", filepath.Base(f), outcome, strings.Join(reached, ","))
 	}
 }
